@@ -1,10 +1,10 @@
 #!/bin/bash
 # confirm every finished round-2 seed in /tmp/m2/<ID>/seed<N> that is not yet in /verif/seeded
 cd /verif
-for d in /tmp/m2/C*/seed* /tmp/m3/C*/seed* /tmp/m4/C*/seed* /tmp/m5/C*/seed* /tmp/m6/C*/seed*; do
+for d in /tmp/m2/C*/seed* /tmp/m3/C*/seed* /tmp/m4/C*/seed* /tmp/m5/C*/seed* /tmp/m6/C*/seed* /tmp/m7/C*/seed*; do
   [ -f $d/meta.json ] && [ -f $d/patch.diff ] || continue
   id=$(basename $(dirname $d)); n=$(basename $d | sed 's/seed//')
-  r=2; case $d in /tmp/m3/*) r=3;; /tmp/m4/*) r=4;; /tmp/m5/*) r=5;; /tmp/m6/*) r=6;; esac; name=$id-r${r}s$n
+  r=2; case $d in /tmp/m3/*) r=3;; /tmp/m4/*) r=4;; /tmp/m5/*) r=5;; /tmp/m6/*) r=6;; /tmp/m7/*) r=7;; esac; name=$id-r${r}s$n
   [ -d seeded/$name ] && continue
   python3 tools/confirmseed.py $d $name 2>&1 | tail -1
 done
